@@ -1,4 +1,7 @@
-// C16 native recipe for the global_control bookkeeping (jobs gcontrol.*): public API only, on a libtbb compiled from the current /repo/src/tbb.
+// C16 native recipe for the global_control bookkeeping (jobs gcontrol.*.parallelism): public API only, on a libtbb compiled from the current /repo/src/tbb.
+// replay() uses it for max_allowed_parallelism only.  The modes `stack_size` and `terminate` document an OBSERVATION OUTSIDE property C16 (which speaks about
+// max_allowed_parallelism only): control_storage_comparator orders every list by ascending value and destroy() takes *begin(), so for the parameters that prefer
+// the LARGER value the active value falls to the MINIMUM of the live controls (e.g. live {8 MB, 12 MB} after destroying 16 MB -> 8 MB).
 //   c16_replay_gc <parameter: parallelism|stack_size|terminate> [v0 v1 v2 v3]
 // Scenario: controls with the values v1, v2, v3 are created, then the subject v0; the subject is destroyed again; after every step the value reported by
 // global_control::active_value() is compared with the extremum the documentation prescribes over the LIVE controls (max_allowed_parallelism: minimum,
